@@ -186,7 +186,7 @@ func main() {
 	}{{entity.Bold(), tg.MessageEntityBoldTypeID}, {entity.Italic(), tg.MessageEntityItalicTypeID},
 		{entity.Underline(), tg.MessageEntityUnderlineTypeID}, {entity.Strike(), tg.MessageEntityStrikeTypeID},
 		{entity.Code(), tg.MessageEntityCodeTypeID}, {entity.Spoiler(), tg.MessageEntitySpoilerTypeID}}
-	for i := 0; i < c.N(300, 8000); i++ {
+	for i := 0; i < c.N(600, 12000); i++ {
 		var b entity.Builder
 		type pre struct {
 			id  uint32
@@ -219,6 +219,34 @@ func main() {
 			order = append(order, pre{fmts[t.f].id, t.off})
 		}
 		endsPlain := false
+		if i%3 == 0 {
+			// structured family: an enclosing entity applied AFTER its inner pieces (inner-first append order),
+			// optionally followed by unformatted text, so the final sort has real work whatever the tail is
+			f0 := c.Rng.Intn(len(fmts))
+			stack = append(stack, open{b.Token(), f0, off})
+			for q := 0; q < 1+c.Rng.Intn(2); q++ {
+				txt := []string{"a", "bc", "def"}[c.Rng.Intn(3)]
+				f1 := fmts[(f0+1+c.Rng.Intn(len(fmts)-1))%len(fmts)]
+				if !has(f1.id, off) {
+					b.Format(txt, f1.f)
+					order = append(order, pre{f1.id, off})
+				} else {
+					b.Plain(txt)
+				}
+				off += entity.ComputeLength(txt)
+			}
+			if c.Rng.Bool() {
+				b.Plain("zz")
+				off += 2
+			}
+			closeTop()
+			if c.Rng.Intn(3) != 0 {
+				b.Plain(" tail")
+				off += 5
+				endsPlain = true
+			}
+			k = c.Rng.Intn(2)
+		}
 		for j := 0; j < k; j++ {
 			txt := []string{"a", "bc", "def", "x y", "\U0001F600", "q  "}[c.Rng.Intn(6)]
 			switch c.Rng.Intn(6) {
